@@ -227,7 +227,7 @@ def let_rule(res, fx):
 # ------------------------------------------------------------------ SatELite guards
 def elimination_rule(res, fx):
     r = res.rule('elimination-guard', 'SatELite never eliminates a frozen variable: eliminateVar is called only under !frozen[v]; asymmVar runs with the variable temporarily frozen; '
-                 'theory atoms, mapper-frozen variables, assumptions and frame variables are frozen; no clause is added after an elimination that stays switched on', floor=6)
+                 'theory atoms, mapper-frozen variables, assumptions, frame variables and variables announced without a clause are frozen; no clause is added after an elimination that stays switched on', floor=7)
     el = fx.func('opensmt::SimpSMTSolver::eliminate')
     calls = [n for n in fwalk(el) if is_call(n, 'eliminateVar') and not n.get('as')]
     if not calls:
@@ -292,6 +292,32 @@ def elimination_rule(res, fx):
         res.ok(r, 'addOriginalSMTClause: setFrozen(v) if isTheoryTerm(tr) || isFrozen(v), for every literal of the clause')
     else:
         res.bad(r, 'freeze-on-add', fx.loc(ao), 'SimpSMTSolver::addOriginalSMTClause no longer freezes the variables of theory atoms and mapper-frozen terms')
+    # variables announced to the SAT solver outside a clause (Boolean terms nested in uninterpreted functions) must be frozen too: they have no clause,
+    # an unfrozen one is eliminated at once, never decided, and the congruence closure never learns its value
+    n_announce = 0
+    for f in sorted(fx.F.values(), key=lambda f: f['name']):
+        if not f.get('body') or '/smtsolvers/' in f['file']:
+            continue
+        for blk in (b for b in walk(f['body'], f.get('lambdas')) if b.get('k') == 'seq'):
+            items = [x for x in blk['c'] if isinstance(x, dict)]
+            for st in items:
+                for c in ([see_through(st['e'])] if st.get('k') == 'e' and isinstance(see_through(st.get('e')), dict) else []):
+                    if is_call(c, 'addVar') and (c.get('cls') or '').endswith('SMTSolver') and c.get('a'):
+                        n_announce += 1
+                        def shape(e):
+                            return {k_: (shape(v_) if isinstance(v_, dict) else [shape(y_) if isinstance(y_, dict) else y_ for y_ in v_] if isinstance(v_, list) else v_)
+                                    for k_, v_ in e.items() if k_ not in ('ln', 'col')} if isinstance(e, dict) else e
+                        arg = shape(c['a'][0])
+                        frozen_here = any(is_call(x, 'setFrozen') and (x.get('cls') or '').endswith('SMTSolver') and x.get('a') and shape(x['a'][0]) == arg and
+                                          str(see_through(x['a'][1]).get('v')) == 'True' for y in items for x in walk(y))
+                        if frozen_here:
+                            res.ok(r, '%s: variable announced with addVar is frozen in the same block' % f['name'].replace('opensmt::', ''))
+                        else:
+                            res.bad(r, 'announced-variable-not-frozen', fx.loc(f, c.get('ln')), '%s announces a variable to the SAT solver (addVar) without freezing it: with :incremental false the '
+                                    'variable of a Boolean term nested in an uninterpreted function that occurs in no clause is eliminated, never decided, and the congruence closure never '
+                                    'learns its value (sat on unsatisfiable input)' % f['name'].replace('opensmt::', ''))
+    if n_announce == 0:
+        raise AnalysisBroken('elimination-guard: no addVar announcement outside the SAT solver found (anchor: MainSolver::solve)')
     ss = fx.func('opensmt::SimpSMTSolver::solve_', nparams=2)
     exits, eng = must_call(ss, {'freeze': lambda n: is_call(n, 'setFrozen') and str(see_through(n['a'][1]).get('v')) == 'True',
                                 'elim': lambda n: is_call(n, 'eliminate')})
